@@ -427,8 +427,13 @@ func RunStress(t *testing.T, sc *SPScenario) (obs *WireObs, failure string) {
 			rnd := rand.New(rand.NewSource(sc.Seed))
 			for k := 0; k < sc.PerSender; k++ {
 				time.Sleep(time.Duration(rnd.Intn(sc.Hb*1200)) * time.Millisecond)
-				a := p.next([]string{"testreq", "hbt", "hbt", "app"}[rnd.Intn(4)], 0)
+				a := p.next([]string{"testreq", "hbt", "hbt", "app", "testreq", "hbt", "hbt", "app", "app", "resend"}[rnd.Intn(10)], 0)
 				a.ID = []int{65 + rnd.Intn(20)}
+				if a.A == "resend" { // open-ended or bounded request for what was sent so far
+					// (only this session's own messages: what an earlier session left in a shared store is not the wire of this one)
+					a.B = sc.StartSeq + 1 + rnd.Intn(3)
+					a.E = []int{0, a.B + 1, a.B + 3, a.B + 3}[rnd.Intn(4)]
+				}
 				if rnd.Intn(5) == 0 {
 					a.Integ = "checksum"
 				}
